@@ -125,6 +125,24 @@ def smRun (evs : List String) : Option Sm :=
                               committedOpstamp := 0, published := [], epoch := 0 },
                       running := [] }
 
+/-! ### event machine (`Sys`) next to the sequential replay (`Abs`) -/
+
+def parseEv (s : Sys) (tok : String) : Option Ev :=
+  match tok.splitOn ":" with
+  | ["a", docs] => (if docs == "-" then some [] else (docs.splitOn ",").mapM parseDocRec).map Ev.addSeg
+  | ["d", k] => k.toNat?.map Ev.delete
+  | ["c"] => some .commit
+  | ["r"] => some .rollback
+  | ["x"] => some .deleteAll
+  | ["mu"] => some (.startMerge (s.st.uncommitted.map (·.segId)))
+  | ["mc"] => some (.startMerge (s.st.committed.map (·.segId)))
+  | ["e"] => some .endMerge
+  | _ => none
+
+def traceRun (toks : List String) : Option (Sys × Abs) :=
+  toks.foldlM (fun (p : Sys × Abs) tok => (parseEv p.1 tok).map fun ev => (p.1.step ev, p.2.step ev))
+    (Sys.init, Abs.init)
+
 def handle : List String → String
   | ["dump", s] =>
     match parseSeg s with
@@ -150,6 +168,13 @@ def handle : List String → String
     match parseAlive bits, ss.mapM parseSeg with
     | some bits, some segs => showNatList (mergedStore (fun i => bits.getD i false) 0 segs)
     | _, _ => "bad-op"
+  | "trace" :: toks =>
+    match traceRun toks with
+    | some (s, a) =>
+      "pub=" ++ showNatList (sortNat (publishedUids s.st)) ++ "/pend=" ++
+        showNatList (sortNat ((pendDocs s.st).map (·.uid))) ++ "/abs=" ++
+        showNatList (sortNat (a.pub.map (·.uid))) ++ "/abspend=" ++ showNatList (sortNat (a.pend.map (·.uid)))
+    | none => "bad-op"
   | "sm" :: evs =>
     match smRun evs with
     | some s => "pub=" ++ showNatList (sortNat (publishedUids s.st)) ++ "/pend=" ++
